@@ -542,7 +542,7 @@ void botpOCRAStepR(char* otp, const octet q[], size_t q_len, tm_time_t t,
 		otp == st->otp);
 	ASSERT(4 <= q_len && q_len <= 2 * st->q_max);
 	ASSERT(memIsDisjoint2(q, q_len, state, botpOCRA_keep() || q == st->q));
-	ASSERT(t != TIME_ERR);
+	ASSERT(!st->ts || t != TIME_ERR);
 	// вычислить имитовставку
 	memCopy(st->stack, st->stack + beltHMAC_keep(), beltHMAC_keep());
 	if (st->ctr_len)
